@@ -1317,7 +1317,7 @@ pub fn run_c07(ctx: &Ctx) -> Report {
     let r = par_cases(ctx, "C07", "may", n, |rng, i, rep| {
         let e = ColumnFlags::empty();
         let u = ColumnFlags::UNSIGNED_FLAG;
-        let (ct, fl, v): (ColumnType, ColumnFlags, V) = match rng.below(14) {
+        let (ct, fl, v): (ColumnType, ColumnFlags, V) = match rng.below(16) {
             11 => {
                 // floats of either width into either float column
                 let t = if rng.bool() { ColumnType::MYSQL_TYPE_FLOAT } else { ColumnType::MYSQL_TYPE_DOUBLE };
@@ -1381,10 +1381,20 @@ pub fn run_c07(ctx: &Ctx) -> Report {
                 let m = MV::Time(rng.chance(1, 6), (s / 86_400) as u32, (s % 86_400 / 3600) as u8, (s % 3600 / 60) as u8, (s % 60) as u8, d.subsec_micros());
                 (ColumnType::MYSQL_TYPE_TIME, e, V::Myc(m))
             }
-            5 => {
+            5 | 14 | 15 => {
                 let ci = rng.usize(6);
                 let t = [ColumnType::MYSQL_TYPE_TINY, ColumnType::MYSQL_TYPE_SHORT, ColumnType::MYSQL_TYPE_YEAR, ColumnType::MYSQL_TYPE_INT24, ColumnType::MYSQL_TYPE_LONG, ColumnType::MYSQL_TYPE_LONGLONG][ci];
-                (t, if rng.bool() { e } else { u }, V::Myc(MV::Int(edge_int(rng, i64::MIN as i128, i64::MAX as i128) as i64)))
+                // half of the generic integers lie in the band just above a signed width's range
+                // (2^7..2^8, 2^15..2^16, 2^23..2^24, 2^31..2^32, or the negative counterpart): where a
+                // width-selection cascade with one wrong bound would wrap them
+                let n = if rng.bool() {
+                    let k = *rng.pick(&[7u32, 15, 23, 31]);
+                    let m = (1i64 << k) + (rng.next() % (1u64 << k)) as i64;
+                    if rng.chance(1, 3) { -m - 1 } else { m }
+                } else {
+                    edge_int(rng, i64::MIN as i128, i64::MAX as i128) as i64
+                };
+                (t, if rng.bool() { e } else { u }, V::Myc(MV::Int(n)))
             }
             6 => (ColumnType::MYSQL_TYPE_LONGLONG, if rng.bool() { e } else { u }, V::Myc(MV::UInt(edge_int(rng, 0, u64::MAX as i128) as u64))),
             _ => (ColumnType::MYSQL_TYPE_DOUBLE, e, V::Myc(MV::Float(gen_f32(rng)))),
